@@ -76,11 +76,13 @@ def check_pattern(E, split_posterior=False):
     return None
 
 
-def engine_error_log_case(col, minimize):
+def engine_error_log_case(col, minimize, codes=(0, 1, 0, 2, 1)):
     """a real engine run with scripted error codes and THINNED warmup / posterior epochs, with and without minimize_transition_infos: the error
-    log and the summary count every transition that returned a code - thinning of the stored samples never thins the error bookkeeping"""
+    log and the summary count every transition that returned a code - thinning of the stored samples never thins the error bookkeeping;
+    also with bit-flag style codes >= 256 (a user kernel's error book)"""
     sched = [(0, 1, 1), (3, 8, 4), (4, 12, 3)]
-    codes = [0, 1, 0, 2, 1]
+    codes = list(codes)
+    RecordingKernel.error_book.update({256: "flag 8", 257: "flag 8 and flag 0"})
     eng = make_engine(sched, 4, chains=2, kernels=1, codes=[codes], minimize_transition_infos=minimize)
     eng.sample_all_epochs()
     res = eng.get_results()
@@ -94,10 +96,11 @@ def engine_error_log_case(col, minimize):
         full[:, idx] = np.asarray(log.error_codes)
     ok = ok and np.array_equal(full, np.tile(want, (2, 1)))
     es = _make_error_summary(res.get_error_log(False).unwrap(), res.get_error_log(True))["kernel_00"]
-    for c_ in (1, 2):
-        ok = ok and c_ in es and int(np.asarray(es[c_].count_per_chain)[0]) == int((want == c_).sum()) and int(np.asarray(es[c_].count_per_chain_posterior)[0]) == int((want[8:] == c_).sum())
+    for c_ in sorted(set(codes) - {0}):
+        ok = ok and c_ in es and es[c_].error_msg == RecordingKernel.error_book[c_] and int(np.asarray(es[c_].count_per_chain)[0]) == int((want == c_).sum()) and int(np.asarray(es[c_].count_per_chain_posterior)[0]) == int((want[8:] == c_).sum())
     col.add(None if ok else {"sig": "native::errors::engine_log_thinned_epochs", "what": f"minimize_transition_infos={minimize}: the error log holds codes at transitions {idx.tolist()} "
-                             f"but the kernel returned a code at {np.where(want != 0)[0].tolist()} (thinning 4 / 3)", "input": {"schedule": sched, "minimize_transition_infos": minimize}})
+                             f"but the kernel returned a code at {np.where(want != 0)[0].tolist()} (thinning 4 / 3), or the summary counts / messages for codes {sorted(set(codes) - {0})} are off",
+                             "input": {"schedule": sched, "minimize_transition_infos": minimize, "codes": codes}})
 
 
 def roundtrips(col, seed):
@@ -154,16 +157,16 @@ def bounded(tier, seed):
         except Exception as e:
             col.add({"sig": f"native::errors::exception::{type(e).__name__}", "what": f"{type(e).__name__}: {str(e)[:200]}", "input": {"error_codes": E.tolist()}})
     roundtrips(col, seed)
-    for mini in (False, True):
+    for mini, cds in ((False, (0, 1, 0, 2, 1)), (True, (0, 1, 0, 2, 1)), (True, (0, 256, 1, 257, 0)), (False, (0, 256, 1, 257, 0))):
         try:
-            engine_error_log_case(col, mini)
+            engine_error_log_case(col, mini, cds)
         except Exception as e:
             col.add({"sig": f"native::errors::exception::{type(e).__name__}", "what": f"{type(e).__name__}: {str(e)[:200]}", "input": {"scenario": "engine error log", "minimize_transition_infos": mini}})
     return {
         "evaluations": col.evals, "distinct_nontrivial": len(pats) + 4,
         "rule": ("BOUNDED: all 81 single-chain and " + ("500 seeded + 4 fixed" if tier == "quick" else "all 6561") + " two-chain error-code patterns over codes {0,1,2} for 2 burn-in + 2 posterior "
                  "transitions, pushed through the real EpochChainManager / SamplingResults.get_error_log / _make_error_summary / Summary._error_df(per_chain=True) and compared with direct "
-                 "counting; engine runs with thinned epochs with and without minimize_transition_infos (error log / summary counts per phase); one real engine run (scripted error codes, random-walk kernels, thinning) for the ArviZ (incl. warmup) and pickle round trips, the engine error log and the "
+                 "counting; engine runs with thinned epochs with and without minimize_transition_infos, codes {0,1,2} and bit-flag codes {1,256,257} (error log / summary counts and messages per phase); one real engine run (scripted error codes, random-walk kernels, thinning) for the ArviZ (incl. warmup) and pickle round trips, the engine error log and the "
                  f"reported sample counts. seed={seed}"),
         "samples": [{"error_codes": [[1, 0, 2, 0]]}, {"error_codes": [[0, 0, 1, 1], [0, 0, 0, 2]]}],
         "exhaustive": tier != "quick", "violations": col.violations,
